@@ -1334,6 +1334,9 @@ class ListNode(SyntaxNodeBase):
             for node in shortcut.nodes:
                 if id(node) in new_vals_cache:
                     new_vals_cache[id(node)] = shortcut
+                    # a shortcut keeps the shape it has: one that holds a single node (a multiply written
+                    # without a base of its own, continuing the shortcut before it) is bound to its product
+                    shortcut._bound_as_product = len(shortcut.nodes) == 1
                     shortcut.nodes.clear()
                     break
         self._expand_shortcuts(new_vals, new_vals_cache)
@@ -2022,10 +2025,10 @@ class ShortcutNode(ListNode):
             if node.value is None:
                 return False
             if len(self.nodes) == 0:
-                # clear out old state if needed
-                self._full = False
-                if last_edge_shortcut:
-                    self._full = True
+                # A multiply written without a base of its own holds its product only. (Whether it merely
+                # FOLLOWS another shortcut does not tell: '1.0 4r 2 2m' has its own base 2; treated as
+                # baseless it was re-bound to the repeat's 1.0 with its base as the product.)
+                self._full = getattr(self, "_bound_as_product", False)
                 return True
             # it only grows at its end: base first, then the product. (Growing at its front made the
             # multiply walk one value backwards every time the list was rebuilt.)
